@@ -97,6 +97,13 @@ def decorate(rng, comps):
     return bytes(out) or b"."
 
 
+def noncanonical(p, kind="f"):
+    """a fixed non-canonical spelling of the canonical path p: './' in front, the last separator doubled, './' before
+    the last component, a trailing slash on directories"""
+    c = comps_of(p)
+    return b"./" + (b"/".join(c[:-1]) + b"//./" if len(c) > 1 else b"") + c[-1] + (b"/" if kind == "d" else b"")
+
+
 def accept_set(rng, bases, n):
     """decorated spellings of the given canonical paths: every base plain once, then random decorations"""
     out = [b for b in bases if b]
@@ -358,6 +365,10 @@ class Funnel:
         self.ref_txt, self.ref_img, self.src_dir = self.T0.txt, self.T0.img, self.T0.src_dir
         self.ref_tar = self.d / "ref.tar"
         self.mktar(self.ref_tar, [(p, tarfile.DIRTYPE if k == "d" else tarfile.REGTYPE, None, data or b"") for p, k, data in REF])
+        # the same members under non-canonical names ('./c18x//y/'): what tar2sqfs stores, and what --exclude is matched
+        # against, must be the canonical name whatever the archive spells
+        self.ref_tar_nc = self.d / "ref_nc.tar"
+        self.mktar(self.ref_tar_nc, [(noncanonical(p, k), tarfile.DIRTYPE if k == "d" else tarfile.REGTYPE, None, data or b"") for p, k, data in REF])
         self.trees = [self.T0]
         for i in range(3 if self.ctx.quick() else 12):
             T = random_tree(self.rng, "rnd%d" % i, self.rng.randint(4, 14))
@@ -534,6 +545,23 @@ class Funnel:
         exp = sorted(p[len(m) + 1:] for p in REF_PATHS if p.startswith(m + b"/"))
         self.add("s2t_subdir", kind, s, exp, got, got == exp, err)
 
+    S2T_SUBDIR_FIRST = b".//c18q/./"              # first value of the two-value runs: a decorated spelling of c18q
+
+    def probe_s2t_subdir2(self, kind, s):
+        """the option is repeatable: `-d .//c18q/./ -d <s>`.  Every value must be canonicalised: refused when the model
+        refuses the second; otherwise (two sub-directories: nothing is stripped) the archive holds each selected
+        directory, what leads to it and what is below it"""
+        rc, out, err = self.run([self.s2t, "-d", self.S2T_SUBDIR_FIRST, "-d", s, self.ref_img])
+        m = self.model[s]
+        if self.crashed(rc):
+            return self.add("s2t_subdir2", kind, s, m, "crash rc=%d" % rc, False, err)
+        if m is None:
+            return self.add("s2t_subdir2", kind, s, "refused", "refused" if self.refused(rc) else "accepted rc=%d" % rc, self.refused(rc), err)
+        got = self.tar_names(out) if rc == 0 else "rc=%d" % rc
+        sel = [self.model[self.S2T_SUBDIR_FIRST], m]
+        exp = sorted(p for p in REF_PATHS if any(p == d or d.startswith(p + b"/") or p.startswith(d + b"/") for d in sel))
+        self.add("s2t_subdir2", kind, s, exp, got, got == exp, err)
+
     def cases_t2s_root(self):
         return ([("reject", s) for s in reject_set(self.rng, [b"c18x/y", b"c18x"], self.n)] + [("reject-empty", b"/"), ("reject-empty", b"."), ("reject-empty", b"./")] +
                 [("accept", s) for s in accept_set(self.rng, [b"c18x/y", b"c18x", b"c18q", b"c18x/..."], self.n)] +
@@ -573,6 +601,26 @@ class Funnel:
         got = sorted(p for p, _, _, _ in ls) if isinstance(ls, list) else ls
         exp = sorted(p for p in REF_PATHS if not (p == m and p in REF_FILES))
         self.add("t2s_exclude", kind, s, exp, got, got == exp, err)
+
+    T2S_EXCLUDE_FIRST = b".//c18q/./v"            # first value of the two-value runs: a decorated spelling of c18q/v
+
+    def probe_t2s_exclude2(self, kind, s):
+        """the option is repeatable and the archive need not spell names canonically: `-E .//c18q/./v -E <s>` on an
+        archive whose members are named './c18x//./w' etc.  Every value must be canonicalised (refused when the model
+        refuses the second one; both members left out otherwise) and the match must be against the canonical member
+        name (lib/tar/src/iterator.c: the exclude loop comes after canonicalize_name)."""
+        t = self.tmp(".sqfs")
+        rc, out, err = self.run([self.t2s, "-E", self.T2S_EXCLUDE_FIRST, "-E", s, "-f", "-q", t], stdin=self.ref_tar_nc)
+        m = self.model[s]
+        if self.crashed(rc):
+            return self.add("t2s_exclude2", kind, s, m, "crash rc=%d" % rc, False, err)
+        if m is None:
+            return self.add("t2s_exclude2", kind, s, "refused", "refused" if self.refused(rc) else "accepted rc=%d" % rc, self.refused(rc), err)
+        ls = self.listing(t) if rc == 0 else "rc=%d" % rc
+        got = sorted(p for p, _, _, _ in ls) if isinstance(ls, list) else ls
+        gone = {self.model[self.T2S_EXCLUDE_FIRST]} | ({m} if m in REF_FILES else set())
+        exp = sorted(p for p in REF_PATHS if p not in gone)
+        self.add("t2s_exclude2", kind, s, exp, got, got == exp, err)
 
     def cases_t2s_retarget(self):
         ins = (reject_set(self.rng, [b"c18x/y/z", b"c18q/v"], self.n) + accept_set(self.rng, [b"c18x/y/z", b"c18x/w", b"c18q/v", b"c18x"], self.n) +
@@ -899,7 +947,8 @@ class Funnel:
             self.ask_model([b"x"], [inp])
             (self.probe_sane_s2t if probe == "sane_s2t" else self.probe_sane)("name", inp)
             return [e for e in self.evals if e.probe == probe]
-        self.ask_model([inp] if not probe.startswith("b_") and not probe.startswith("fixture") else [b"x"], [])
+        self.ask_model(([inp] if not probe.startswith("b_") and not probe.startswith("fixture") else [b"x"]) +
+                       [self.T2S_EXCLUDE_FIRST, self.S2T_SUBDIR_FIRST], [])
         self.make_reference()
         bmap = {"b_packing": self.probe_b_gensquashfs_dir, "b_scan_xattr": self.probe_b_gensquashfs_dir, "b_glob": self.probe_b_glob,
                 "b_sortmatch": self.probe_b_sortmatch, "b_create": self.probe_b_unpack, "b_fill": self.probe_b_unpack,
@@ -921,7 +970,7 @@ class Funnel:
                 for op in (["-c", "-s", "-x"] if inp.endswith(b"/leak-marker") else ["-u"]):
                     self.probe_rd_path("reject-op", (op, inp))
             self.probe_rd_path("reject" if m is None else "cat" if m in REF_FILES else "ls", inp)
-        elif probe in self.A_PROBES:
+        elif probe in self.A_PROBES or probe[:-1] in self.PAIRED:
             getattr(self, "probe_" + probe)(kind, inp)
         else:
             raise vlib.CheckFailure("C18 funnel: unknown probe %r in replay file" % probe)
@@ -930,6 +979,8 @@ class Funnel:
     # ================================================================ driver
     A_PROBES = ["packfile", "sortfile", "xattrfile", "tarmember", "tarhardlink", "s2t_root", "s2t_subdir", "t2s_root", "t2s_exclude",
                 "t2s_retarget", "rd_path"]
+
+    PAIRED = ["t2s_exclude", "s2t_subdir"]        # repeatable options: a second run per case with two values
 
     def run_all(self):
         self.build()
@@ -947,7 +998,11 @@ class Funnel:
                     paths.append(s[1])
                 else:
                     paths.append(s)
+        paths += [self.T2S_EXCLUDE_FIRST, self.S2T_SUBDIR_FIRST] + [noncanonical(p, k) for p, k, _ in REF]
         self.ask_model(paths, [n for _, n in cases["sane"]])
+        if self.model[self.T2S_EXCLUDE_FIRST] != b"c18q/v" or self.model[self.S2T_SUBDIR_FIRST] != b"c18q" or \
+                any(self.model[noncanonical(p, k)] != p or noncanonical(p, k) == p for p, k, _ in REF):
+            raise vlib.CheckFailure("C18 funnel: the fixed non-canonical spellings do not canonicalise to the reference paths")
         # the generators must deliver what they promise: a probe whose reject or accept set is empty proves nothing
         for name in self.A_PROBES:
             kinds = [k for k, _ in cases[name]]
@@ -969,6 +1024,9 @@ class Funnel:
                 jobs.append((getattr(self, "probe_" + name), (kind, s)))
         for kind, s in cases["sane"]:
             jobs.append((self.probe_sane_s2t, (kind, s)))
+        for name in self.PAIRED:
+            for kind, s in cases[name]:
+                jobs.append((getattr(self, "probe_" + name + "2"), (kind, s)))
         for T in self.trees:
             for b in ("probe_b_gensquashfs_dir", "probe_b_glob", "probe_b_sortmatch", "probe_b_unpack", "probe_b_describe", "probe_b_sqfsdiff"):
                 jobs.append((getattr(self, b), (T,)))
@@ -983,14 +1041,14 @@ class Funnel:
 # call site (AST key) -> probes that drive it.  `need` = evaluation kinds that must each have occurred at least once.
 COVER = {
     "lib/fstree/src/fstree.c:mknode:canonicalize_name#0": (["lib_hlink", "tarhardlink"], "A"),
-    "lib/tar/src/iterator.c:it_next:canonicalize_name#0": (["lib_tar", "tarmember"], "A"),
+    "lib/tar/src/iterator.c:it_next:canonicalize_name#0": (["lib_tar", "tarmember", "t2s_exclude2"], "A"),
     "bin/gensquashfs/src/fstree_from_file.c:handle_line:canonicalize_name#0": (["packfile"], "A"),
     "bin/gensquashfs/src/sort_by_file.c:decode_filename:canonicalize_name#0": (["sortfile"], "A"),
     "bin/gensquashfs/src/filemap_xattr.c:parse_file_name:canonicalize_name#0": (["xattrfile"], "A"),
     "bin/sqfs2tar/src/options.c:process_args:canonicalize_name#0": (["s2t_root"], "A"),
-    "bin/sqfs2tar/src/options.c:process_args:canonicalize_name#1": (["s2t_subdir"], "A"),
+    "bin/sqfs2tar/src/options.c:process_args:canonicalize_name#1": (["s2t_subdir", "s2t_subdir2"], "A"),
     "bin/tar2sqfs/src/options.c:process_args:canonicalize_name#0": (["t2s_root"], "A"),
-    "bin/tar2sqfs/src/options.c:process_args:canonicalize_name#1": (["t2s_exclude"], "A"),
+    "bin/tar2sqfs/src/options.c:process_args:canonicalize_name#1": (["t2s_exclude", "t2s_exclude2"], "A"),
     "bin/tar2sqfs/src/process_tarball.c:process_tarball:canonicalize_name#0": (["t2s_retarget"], "A"),
     "bin/rdsquashfs/src/options.c:get_path:canonicalize_name#0": (["rd_path"], "A"),
     "bin/gensquashfs/src/sort_by_file.c:fstree_sort_files:canonicalize_name#0": (["b_sortmatch", "sortfile"], "B"),
